@@ -43,10 +43,11 @@ class _BlockBoom(Exception):
 
 
 # canary battery, run by every thread after its script under `with FST.options(**DEFAULTS)`: small edits through the
-# OPTION-LESS entry points (attribute / view-item assignment) on fresh trees.  Their results are constants of the library
-# (recorded from the unchanged tree, all checked by hand); anything an earlier call left behind in process- or
-# thread-wide state that changes them is a call whose options did not stay with that call.  The list starts with the
-# kinds of puts that have option special-casing of their own.
+# OPTION-LESS entry points (attribute / view-item assignment) on fresh trees, compared (a) with the same single-element
+# put made through put() with the defaults passed explicitly and (b) with their own results before the run.  Anything a
+# call leaves behind in process-wide state that changes them is a call whose options did not stay with that call.  The
+# list starts with the kinds of puts that have option special-casing of their own.  (The last column is the result on
+# the unchanged tree, for the reader; it is not used by the check.)
 BATTERY = [
     ('from m import a, b\n', [('body', 0)], 'names', 0, 'z', 'from m import z, b\n'),
     ('import a, b\n', [('body', 0)], 'names', 1, 'c.d', 'import a, c.d\n'),
@@ -143,31 +144,48 @@ def gen_script_op(rng, root, depth=0):
 
 
 def run_battery():
-    """Returns None or a description of the first canary edit whose result is not the library constant."""
+    """[(result through the option-less entry point, result of the same single-element put as put(..., **DEFAULTS))] for
+    every canary edit, each on a fresh tree, under `with FST.options(**DEFAULTS)`."""
     import fst
     out = []
-    bad = None
     with fst.FST.options(**DEFAULTS):
-        for src, path, field, idx, code, want in BATTERY:
-            try:
-                t = fst.FST(src, 'exec')
-                n = t
-                for fld, i in path:
-                    n = getattr(n, fld)
-                    if i is not None:
-                        n = n[i]
-                if idx is None:
-                    setattr(n, field, code)
-                else:
-                    getattr(n, field)[idx] = code
-                got = t.src
-            except Exception as e:
-                got = 'EXC ' + O.exc_repr(e)
-            out.append(got)
-            if got != want and bad is None:
-                bad = (f'state left behind by earlier calls: the option-less edit {field}{"" if idx is None else [idx]} = {code!r} on a fresh tree {src!r} '
-                       f'under default options gives {got!r}, not {want!r}')
-    return bad
+        for src, path, field, idx, code, _recorded in BATTERY:
+            pair = []
+            for explicit in (False, True):
+                try:
+                    t = fst.FST(src, 'exec')
+                    n = t
+                    for fld, i in path:
+                        n = getattr(n, fld)
+                        if i is not None:
+                            n = n[i]
+                    if explicit:
+                        if idx is None:
+                            n.put(code, field=field, **DEFAULTS)
+                        else:
+                            n.put(code, idx, field=field, **DEFAULTS)
+                    elif idx is None:
+                        setattr(n, field, code)
+                    else:
+                        getattr(n, field)[idx] = code
+                    got = t.src
+                except Exception as e:
+                    got = 'EXC ' + O.exc_repr(e)
+                pair.append(got)
+            out.append(tuple(pair))
+    return out
+
+
+def battery_verdict(before, after):
+    """None or a description.  Only relative comparisons (no expected text is hard-wired): the option-less entry point must
+    act like put() with the defaults given explicitly, and nothing the run did may have changed a canary result."""
+    for (src, path, field, idx, code, _recorded), b, a in zip(BATTERY, before, after):
+        what = f'{field}{"" if idx is None else [idx]} = {code!r} on a fresh tree {src!r} under default options'
+        if a[0] != a[1]:
+            return f'the option-less edit {what} gives {a[0]!r}, the same put with the defaults passed explicitly gives {a[1]!r}'
+        if a != b:
+            return f'state left behind by this run: the edit {what} gave {b[0]!r} before the run and gives {a[0]!r} after it'
+    return None
 
 
 class Worker:
@@ -516,6 +534,7 @@ class ThreadRun:
             n = len(programs)
         log = []
         sched = None
+        battery_before = run_battery()
         try:
             # 1. each script alone (this also generates the scripts)
             alone = []
@@ -578,7 +597,7 @@ class ThreadRun:
                         break
             # 4. canary battery (once per run, main thread): nothing the scripts did may have stayed behind in process-wide state
             if self.viol is None:
-                bad = run_battery()
+                bad = battery_verdict(battery_before, run_battery())
                 self.stats['battery_runs'] += 1
                 if bad:
                     self.fail('option_of_an_earlier_call_still_in_effect', bad)
